@@ -19,7 +19,6 @@ import (
 func (fr *Frame) call(in ssa.Instruction, c *ssa.CallCommon, st *State, pc Term) []Term {
 	pre := st.clone()
 	res := fr.callInner(in, c, st, pc)
-	fr.restoreUnescaped(in, st, pre)
 	if !fr.top || fr.contract == nil || fr.lastCallee == "" {
 		return res
 	}
